@@ -33,6 +33,11 @@ def make_variations(case, rng):
     sig, base, qs = case["sig"], case["base"], case["qs"]
     n, m = len(base), len(qs)
     out = [("canonical", {"sig": sig, "base": base, "keys": list(range(1, n + 1)), "qs": qs, "qkeys": list(range(1, m + 1))})]
+    if case.get("keyfocus"):
+        # key-focused stage: the reserved-looking key 0 lands on every conditional in turn
+        for r in range(n):
+            out.append((f"rot{r}", {"sig": sig, "base": base, "keys": [(i - r) % n for i in range(n)], "qs": qs, "qkeys": list(range(0, m))}))
+        return out
     out.append(("keys0", {"sig": sig, "base": base, "keys": list(range(0, n)), "qs": qs, "qkeys": list(range(0, m))}))
     sparse = sorted(rng.sample(range(0, 60), n))
     out.append(("sparse", {"sig": sig, "base": base, "keys": sparse, "qs": qs, "qkeys": sorted(rng.sample(range(0, 90), m))}))
@@ -97,14 +102,26 @@ def run(chk: Check, tier: str):
     n_small = 70 if tier == "quick" else 900
     n_big = 10 if tier == "quick" else 120
     cases = []
-    for _ in range(n_small):
-        c = infer.gen_case(rng, rng.choice([2, 3, 3, 4]), rng.choice([1, 2, 3, 3, 4]), 6, {"strong", "weak-mixed", "weak-nofin"})
+    for i in range(n_small):
+        if i % 2:  # every second case has at least two finite layers (tie-breaking recursion is exercised)
+            c = infer.gen_case(rng, rng.choice([3, 3, 4]), rng.choice([3, 4, 5]), 8, {"strong", "weak-mixed"}, min_layers=2)
+        else:
+            c = infer.gen_case(rng, rng.choice([2, 3, 3, 4]), rng.choice([1, 2, 3, 3, 4]), 6, {"strong", "weak-mixed", "weak-nofin"})
         if c:
             cases.append({"sig": c["sig"], "base": [(x["B"], x["A"]) for x in c["base"]], "qs": [(x["B"], x["A"]) for x in c["qs"]], "small": True})
     for g in rel.generated_cases(rng, n_big, atom_range=(6, 20), nq=5):
         cases.append({"sig": g["sig"], "base": g["base"], "qs": g["qs"], "small": False})
     configs = infer.configs_for(["p", "z", "w", "l", "c"], [False, True])
-    results = infer.pool_map(_exec_var, [(c, configs, rng.randrange(1 << 30)) for c in cases], chunksize=1)
+    tasks = [(c, configs, rng.randrange(1 << 30)) for c in cases]
+    # key-focused stage: many multi-layer bases, every rotation of the keys 0..n-1, the operators that address conditionals by key
+    kconfigs = [("p", "", False), ("w", "rc2", False), ("l", "rc2", False), ("c", "rc2", False), ("w", "rc2", True), ("l", "rc2", True)]
+    for i in range(300 if tier == "quick" else 6000):
+        c = infer.gen_case(rng, 3, rng.choice([3, 4, 4, 5]), 10, {"strong"} if i % 4 else {"weak-mixed"}, min_layers=2)
+        if c:
+            kc = {"sig": c["sig"], "base": [(x["B"], x["A"]) for x in c["base"]], "qs": [(x["B"], x["A"]) for x in c["qs"]], "small": False, "keyfocus": True}
+            cases.append(kc)
+            tasks.append((kc, kconfigs, rng.randrange(1 << 30)))
+    results = infer.pool_map(_exec_var, tasks, chunksize=1)
     eq_events, eq_idx, inf_events, inf_idx = [], [], [], []
     for ci, (case, res) in enumerate(zip(cases, results)):
         small = case["small"]
@@ -164,6 +181,7 @@ def run(chk: Check, tier: str):
         "random with 0, permuted order, consistent atom renaming (incl. names resembling internal helper variables), signature reordered + extended by unused atoms, "
         "equivalence-preserving rewrites, re-presentation from the semantic vector; query keys varied likewise. Every operator x back-end x mode answers each presentation; TLC requires "
         "pointwise equal answers (Trace_Relations) and, for <=4 atoms, equality with the specification's answer (Trace_Ops); returned rows must carry the submitted keys. "
+        "Key-focused stage: multi-layer 3-atom bases, every rotation of the keys 0..n-1 (key 0 lands on each conditional in turn), operators p/W/lex/c. "
         "Non-trivial = (case, configuration) with at least two answering presentations."
     )
     chk.assumptions += ["spec answers are a function of the semantic conditionals only (by construction of InfOCFSem)"]
